@@ -87,6 +87,14 @@ breaking('PT2-swapped-occupations', {'C17': 'PT2'}, edit=[(M + 'dicke.py', "tmp3
 breaking('PT3-conj-on-ket', {'C17': 'PT3'}, edit=[(M + 'dicke.py', "ret.append((state[:,ind0] * value) @ state_conj[:,ind1].T)", "ret.append((state_conj[:,ind0] * value) @ state[:,ind1].T)")])
 breaking('PT3-numpy-no-reorder', {'C17': 'PT3'}, edit=[(M + 'dicke.py', ".reshape(dimA,dimA,dimB,dimB).transpose(0,2,1,3).reshape(dimA*dimB,dimA*dimB)", ".reshape(dimA,dimA,dimB,dimB).transpose(0,1,2,3).reshape(dimA*dimB,dimA*dimB)")])
 preserving('PT1-renamed', ['C17'], edit=[(M + 'utils.py', "    tmp0 = list(range(N0))\n    tmp1 = list(range(N0,2*N0))\n    tmp2 = set(range(N0))-set(keep_index)\n    for x in tmp2:\n        tmp1[x] = x\n    tmp3 = list(keep_index) + [x+N0 for x in keep_index]\n    N1 = np.prod([dim[x] for x in keep_index])\n    ret = np.einsum(rho, tmp0+tmp1, tmp3, optimize=True).reshape(N1, N1)", "    row_legs = list(range(N0))\n    col_legs = list(range(N0,2*N0))\n    traced = set(range(N0))-set(keep_index)\n    for k in traced:\n        col_legs[k] = k\n    out_legs = list(keep_index) + [k+N0 for k in keep_index]\n    N1 = np.prod([dim[x] for x in keep_index])\n    ret = np.einsum(rho, row_legs+col_legs, out_legs, optimize=True).reshape(N1, N1)")])
+breaking('SP1-coset-factor', {'C09': 'SP1'}, edit=[(M + 'group/spf2.py', "ret = tuple((x-1)*(x>>1) for x in tmp0)", "ret = tuple((x-1)*(x>>2) for x in tmp0)")])
+breaking('SP2-swapped-block', {'C09': 'SP2'}, edit=[(M + 'group/spf2.py', "g[1:N0,(N0+1):] = tmp0[:(N0-1),(N0-1):]", "g[1:N0,(N0+1):] = tmp0[(N0-1):,:(N0-1)]")])
+breaking('SP3-offset-lost', {'C09': 'SP3'}, edit=[(M + 'group/spf2.py', "ai = bitarray_to_int(mat[0]) - 1", "ai = bitarray_to_int(mat[0])")])
+breaking('SP3-polarity', {'C09': 'SP3'}, edit=[(M + 'group/spf2.py', "tmp0 = (T1,T0,h0,e1) if (tw[0]==0) else (T1,T0,h0)", "tmp0 = (T1,T0,h0,e1) if (tw[0]==1) else (T1,T0,h0)")])
+breaking('SP4-big-endian', {'C09': 'SP4'}, edit=[(M + 'group/spf2.py', "ret = int.from_bytes(np.packbits(b, axis=0, bitorder='little').tobytes(), byteorder='little', signed=False)", "ret = int.from_bytes(np.packbits(b, axis=0, bitorder='little').tobytes(), byteorder='big', signed=False)")])
+breaking('SP5-roll-one-axis', {'C09': 'SP5'}, edit=[(M + 'group/spf2.py', "ret = np.roll(mat.T, N0, axis=(0,1))", "ret = np.roll(mat.T, N0, axis=0)")])
+breaking('SP6-wrong-vector', {'C09': 'SP6'}, edit=[(M + 'group/spf2.py', "                    v2[ind0] = v1[ind0+N0]\n", "                    v2[ind0] = v0[ind0+N0]\n")])
+preserving('SP1-pow-generator', ['C09'], edit=[(M + 'group/spf2.py', "tmp0 = (1<<(2*x) for x in range(1,n+1))", "tmp0 = (4**x for x in range(1,n+1))")])
 breaking('refix-get_gme_2qubit', {'C13': 'F2', 'C05': 'F2'}, patch_reverse='fix_78cd862.diff')
 
 # ---- textual breaking edits, one per rule family
